@@ -606,7 +606,8 @@ class EvolvableGPT(EvolvableModule):
         """
         if numb_new_nodes is None:
             numb_new_nodes = np.random.choice([32, 64, 128], 1)[0]
-        self.dim_feedfwd += numb_new_nodes
+        # Keep a Python int (np.random.choice yields np.int64) so the module can be rebuilt from its init_dict
+        self.dim_feedfwd += int(numb_new_nodes)
 
         return {"numb_new_nodes": numb_new_nodes}
 
@@ -620,7 +621,7 @@ class EvolvableGPT(EvolvableModule):
         if numb_new_nodes is None:
             numb_new_nodes = np.random.choice([32, 64, 128], 1)[0]
 
-        self.dim_feedfwd -= numb_new_nodes
+        self.dim_feedfwd -= int(numb_new_nodes)
 
         return {"numb_new_nodes": numb_new_nodes}
 
